@@ -4,6 +4,7 @@ Black box: the server reveals each lint (char span + suggestions) in the HarperI
 of its code actions, so diagnostics <-> lints <-> edits are cross-checked from outside with an
 independent char <-> UTF-16 position model (client.py)."""
 import json
+import re
 import os
 import random
 import shutil
@@ -18,7 +19,7 @@ FLAGGED = [
     "could of been", "the 1st and 2rd place", "i am here", "This is a a test", "She said its fine",
 ]
 LEADS = ["", "\U0001F600 ", "é café ", "\U0001D400\U0001D401 ", "\t", "中文 ", "\U0001F468\u200d\U0001F469\u200d\U0001F467 ok ", "  ",
-         "\U0001F600" * 10 + " ", "\U0001D400\U0001D401\U0001D402\U0001D403\U0001D404\U0001D405 ", "\U0001F600\U0001F600\U0001F600\U0001F600 \U0001F600\U0001F600\U0001F600\U0001F600 "]
+         "\ufeff", "\u200b", "\u00ad", "\u2060 ", "\U0001F600" * 10 + " ", "\U0001D400\U0001D401\U0001D402\U0001D403\U0001D404\U0001D405 ", "\U0001F600\U0001F600\U0001F600\U0001F600 \U0001F600\U0001F600\U0001F600\U0001F600 "]
 SHORT = ["is is", "and and", "the the", "teh", "a a"]
 # lints that cross a line break (repeated word over a newline / soft break / consecutive comment lines)
 CROSS = [("This is the", "the test"), ("We went to to", "to the shop"), ("\U0001F600 it was and", "and so on")]
@@ -93,6 +94,22 @@ def make_doc(rng, sentences):
     if rng.random() < 0.5:
         text += eol
     return lang, text
+
+
+def describes_itself(msg, flagged):
+    """Some lints say in their message what they flagged: an oracle for the span that does not
+    depend on any index the server computed. Returns None when the message is not of such a kind,
+    else whether the flagged characters are what the message says."""
+    m = re.match(r"^Did you mean to spell \u201c(.*)\u201d this way\?$", msg)
+    if m:
+        return flagged == m.group(1)
+    if msg == "Did you mean to repeat this word?":
+        # first and last word equal; between them white space or, across lines, comment markup
+        parts = re.findall(r"[\w'\u2019]+", flagged)
+        return len(parts) >= 2 and parts[0].lower() == parts[-1].lower() and flagged.startswith(parts[0]) and flagged.endswith(parts[-1])
+    if msg == "Incorrect indefinite article.":
+        return flagged.lower() in ("a", "an")
+    return None
 
 
 def lint_from_action(a):
@@ -184,6 +201,11 @@ def check_doc(workdir, lang, text, findings, counters):
             if (sl, sc, el, ec, msg) not in pub:
                 finding("range.not-published", "lint %r at chars %d..%d should be published at %d:%d-%d:%d; published ranges with that message: %r" % (
                     msg, a, b, sl, sc, el, ec, sorted(p[:4] for p in pub if p[4] == msg)))
+            ok = describes_itself(msg, text[a:b])
+            if ok is not None:
+                counters["self_described"] = counters.get("self_described", 0) + 1
+                if not ok:
+                    finding("span.not-the-flagged-text", "lint %r covers chars %d..%d = %r of the text the client sent" % (msg, a, b, text[a:b]))
             # 2. every position inside the range returns this lint's fixes
             for p in range(a, b):
                 if p in at_pos and (a, b, msg) not in at_pos[p]:
@@ -219,12 +241,12 @@ def run(tier, seed, scale, verif):
     # fixed edge cases: lints on the last line without a trailing newline, first line, CRLF, astral before lint
     docs += [("plaintext", "This is the\nthe test."), ("markdown", "Soft break the\nthe end.\n"), ("rust", "// comment with the\n// the repeated word\nfn main() {}\n"),
              ("plaintext", "\U0001F600" * 10 + " and and\n"), ("plaintext", "ok\n\U0001D400\U0001D401\U0001D402\U0001D403\U0001D404\U0001D405 is is"),
-             ("plaintext", "Fine line.\nWe saw a tset"), ("plaintext", "teh"), ("markdown", "\U0001F600 teh end\r\n\r\nan apple and a apple"),
+             ("plaintext", "Fine line.\nWe saw a tset"), ("plaintext", "\ufeffThis is the the test.\nAnd a tset.\n"), ("markdown", "\ufeffteh start\n"), ("rust", "\ufeff// We saw a tset.\nfn main() {}\n"), ("plaintext", "teh"), ("markdown", "\U0001F600 teh end\r\n\r\nan apple and a apple"),
              ("plaintext", "We saw a tset.\n\n\nthe the end\n"), ("rust", "// teh cat\nfn main() {}\n// an apple and a apple")]
     base = os.path.join(verif, "target", "run", "c08")
     shutil.rmtree(base, ignore_errors=True)
     findings_all = []
-    counters = {"diagnostics": 0, "lints": 0, "edits": 0}
+    counters = {"diagnostics": 0, "lints": 0, "edits": 0, "self_described": 0}
     shapes = set()
     samples = []
     evaluations = 0
@@ -233,7 +255,7 @@ def run(tier, seed, scale, verif):
     def work(i):
         lang, text = docs[i]
         f = []
-        c = {"diagnostics": 0, "lints": 0, "edits": 0}
+        c = {"diagnostics": 0, "lints": 0, "edits": 0, "self_described": 0}
         try:
             probes = check_doc(os.path.join(base, "w%d" % i), lang, text, f, c)
             return i, probes, f, c, None
